@@ -49,7 +49,16 @@ func TestReplay(t *testing.T) { harness.ReplayPath(t) }
 // avoidKnown lists the confirmed library defects whose triggering feature the GENERATOR leaves out (every
 // avoided draw is counted with harness.Rec.Exclude(name)). Each name has a minimal reproducer
 // /verif/replay/C06/kf-<name>.json that fails with the recorded key when replayed (replay never
-// consults this map: a case is evaluated as it is written).
+// consults this map: a case is evaluated as it is written; the reproducers carry "noAvoid": true).
+//
+//	uuid-in-traf               TrafBox.RemoveEncryptionBoxes (mp4/traf.go) drops every uuid child of the traf that is
+//	                           not a PIFF senc (tfxd, tfrf, vendor boxes): the *UUIDBox case has no else branch.
+//	prft-before-moof           File.AddChild (mp4/file.go) attaches emsg, moof and mdat to the current fragment but
+//	                           not prft; File.Encode in segment mode (the default, used by mp4ff-encrypt) writes
+//	                           init + fragments only, so a prft in front of a moof is lost.
+//	explicit-base-data-offset  tfhd.base_data_offset (absolute file position of the moof) is written back unchanged
+//	                           although InitProtect grew the init segment (sinf, pssh): every trun then addresses
+//	                           bytes in front of its mdat payload; DecryptSegment fails or decrypts the wrong bytes.
 var avoidKnown = map[string]bool{
 	cryptgen.FeatUUIDInTraf:     true,
 	cryptgen.FeatPrftBeforeMoof: true,
@@ -126,7 +135,7 @@ type wantSample struct {
 	time       uint64
 }
 
-func modelSamples(c *cryptgen.Case, data [][]byte, trunV1 func(i int) bool) []wantSample {
+func modelSamples(c *cryptgen.Case, data [][]byte) []wantSample {
 	var out []wantSample
 	tm := c.StartTime
 	for i := range c.Samples {
@@ -140,7 +149,7 @@ func modelSamples(c *cryptgen.Case, data [][]byte, trunV1 func(i int) bool) []wa
 // compareSamples checks the samples fragbuild.Read resolved in the output against the model.
 func compareSamples(tag string, p *fragbuild.Parsed, c *cryptgen.Case, data [][]byte) *harness.Fail {
 	got := p.TrackSamples(c.TrackID)
-	want := modelSamples(c, data, nil)
+	want := modelSamples(c, data)
 	if len(got) != len(want) {
 		return harness.Failf(tag+"|samples|count differs", "output has %d samples, the input %d", len(got), len(want))
 	}
@@ -216,9 +225,6 @@ func judgeRoundTrip(c *cryptgen.Case, b *cryptgen.Built, out []byte) *harness.Fa
 	// every box of the clear input present, in order, unchanged (mdat is judged through the samples)
 	if d := cryptgen.DiffBoxes(b.File, withoutMdat(ct), out, withoutMdat(ot), "", "", &cryptgen.DiffOpts{MaskOffsets: true}); d != nil {
 		lbl := d.Type
-		if d.Type == "uuid" {
-			lbl = "uuid"
-		}
 		path := strings.TrimPrefix(d.Path, "/")
 		if path == "" {
 			path = "top level"
